@@ -105,6 +105,18 @@ def feed(cx, channel, v):
     raise ValueError(channel)
 
 
+def has_multi_set(s):
+    if s[0] == "set":
+        return len(s[1]) > 1 or any(has_multi_set(x) for x in s[1])
+    if s[0] == "ns":
+        return any(has_multi_set(v) for _, v in s[1])
+    if s[0] == "dict":
+        return any(has_multi_set(v) for _, v in s[1])
+    if s[0] in ("list", "tuple"):
+        return any(has_multi_set(x) for x in s[1])
+    return False
+
+
 def fixed_point_checks(cx: Ctx, r, inp, reparse=None):
     """The three clauses for one returned configuration r. `reparse(text)` parses dumped text (default parse_string)."""
     p, rec, pre = cx.B.parser, cx.rec, cx.prefix
@@ -144,11 +156,17 @@ def fixed_point_checks(cx: Ctx, r, inp, reparse=None):
             rec.check(False, f"c10:{pre}{'redump' if kind == first_kind else clause}:{kind}", f"the dumped text cannot be parsed back: {back[1:]}", cx.case(inp, {"dump": d1[1][:300]}))
             first_kind = first_kind or kind
             continue
+        s_back = snap(back[1], drop=("cfg",))  # before dumping it: dump rewrites containers below tuples in place (C08)
         d2 = outcome(p.dump, back[1], **kw)
         ok = d2[0] == "ok" and d2[1] == d1[1]
         key = ""
+        if not ok and d2[0] == "ok" and s_back == s_r and has_multi_set(s_r):
+            # equal configurations whose texts differ while a set with several members is present: sets are unordered, the order
+            # in which their members are written is not covered by the statement - not asserted, only counted
+            rec.count("set-order-only")
+            continue
         if not ok:
-            d = first_diff(s_r, snap(back[1], drop=("cfg",)))
+            d = first_diff(s_r, s_back)
             kind = f"{d[1]}:{leaf_label(d[2] if d[2] is not None else d[3])}" if d else ("text-only:" + hint if d2[0] == "ok" else f"second-dump-{d2[1]}:{hint}")
             key = f"c10:{pre}{'redump' if kind == first_kind else clause}:{kind}"
             first_kind = first_kind or kind
@@ -435,9 +453,9 @@ def main():
     add("flat", "json", "pick" if not thorough else "d1", st=6)
     if thorough:
         add("dataclass", "json", "pick")
-        add("flat", "jsonnet", "pick")
     totals = run_units(h, any_unit, units + special_units(thorough))
-    h.note(f"inputs accepted {totals.get('accepted', 0)}, rejected {totals.get('rejected', 0)}, parsers not built {totals.get('parser-not-built', 0)}")
+    h.note(f"inputs accepted {totals.get('accepted', 0)}, rejected {totals.get('rejected', 0)}, parsers not built {totals.get('parser-not-built', 0)}; "
+           f"{totals.get('set-order-only', 0)} re-dumps differed only in the order of set members (not asserted)")
     h.check(totals.get("accepted", 0) > 0 and totals.get("rejected", 0) > 0, "c10:vacuity", "both accepted and rejected inputs must occur", totals)
     if h.only:  # replay: report only the requested key (exit status 1 iff it still fails)
         h.violations = [v for v in h.violations if v["key"] == h.only]
@@ -446,8 +464,7 @@ def main():
         stored = {v["key"] for v in h.violations}
         h.note(f"{len(h.viol_keys)} distinct violation keys, only {len(h.violations)} stored; the others: " + " | ".join(sorted(h.viol_keys - stored)))
     sys.exit(h.finish(exhaustive=True, bound=f"type grammar depth <= {D} ({len(alltypes)} types, all in the flat shape; {'depth <= 1' if thorough else 'leaves + 37 representative depth-1 types'} in the other "
-                      f"{len(SHAPES) - 1} shapes), value sets of gen_d, 8 channels (all 8 for depth <= 1 in the flat shape, 4 elsewhere" + (" - all 8 everywhere in this tier" if thorough else "") + "), parser modes yaml/json"
-                      + ("/jsonnet" if thorough else "") + "; special sections: b01's focused parsers (subcommands, nested dataclasses, subclass specs, callables), relative paths through a "
+                      f"{len(SHAPES) - 1} shapes), value sets of gen_d, 8 channels (all 8 for depth <= 1 in the flat shape, 4 elsewhere" + (" - all 8 everywhere in this tier" if thorough else "") + "), parser modes yaml/json; special sections: b01's focused parsers (subcommands, nested dataclasses, subclass specs, callables), relative paths through a "
                       "config in a sub-directory (also after chdir), nested config files with and without meta, 24 defaults written in non-normalised form x 2 declaration styles"))
 
 
